@@ -229,7 +229,7 @@ pub fn c01_check(c: &C01Case, info: &mut CaseInfo) -> Result<(), Fail> {
 
 pub fn run_c01(ctx: &mut Ctx) {
     for v in 0..7 {
-        let n = ctx.count(150_000, 1_000_000);
+        let n = ctx.count(150_000, 2_500_000);
         ctx.run(&format!("keystream/{}", VARIANTS[v].name), n, c01_strategy(v), c01_check);
     }
     ctx.required_classes.push("crosses block 2^32".into());
